@@ -60,6 +60,11 @@ def Ctx.subscriptionReply (c : Ctx) (t : Topic) (a : Actor) (mode : String) (pri
         if rcpt.isEmpty then c else
         { c with pushes := c.pushes ++ [s!"push what=sub topic={tn} seq={t.lastId} to=\{{",".intercalate rcpt}} chan=-"] }
       else c
+    -- … the subscriber's own `me` is told to listen to this topic (the announcement which would do it is deferred for a background
+    -- session and lost if that session leaves first: fix of the creator who is never told) …
+    let c := match res.modeChanged with
+      | some (w, g) => if newsub then c.presSingleOffline t a.uid (w &&& g) "?none" "" "" "" "" false "en" else c
+      | none => c
     -- … and the subscriber's other sessions learn of the new subscription on `me`
     let c := match res.modeChanged with
       | some (w, g) => if newsub then
@@ -126,7 +131,9 @@ def Ctx.opNewGrp (c : Ctx) (a : Actor) (o : NewGrpOpts) : Ctx :=
   let (c, ok) := c.call "TopicCreate" (fun w => { w.setRow row with nextT := w.nextT + 1 })
   if !ok then c.emit a.sid (ctrl 500 (if o.chan then "?nch" else "?new")) else
   let (c, ok) := c.subsCreate tn (newSubRow a.uid want modeCFull privTok)
-  if !ok then c.emit a.sid (ctrl 500 (if o.chan then "?nch" else "?new")) else
+  -- store.Topics.Create: a topic whose owner's subscription cannot be written is taken back (fix of the ownerless topic)
+  -- (the symbolic name goes back with the row: the next topic made gets it)
+  if !ok then ((c.call "TopicDelete" (fun w => { w.delRow tn with nextT := w.nextT - 1 })).1).emit a.sid (ctrl 500 (if o.chan then "?nch" else "?new")) else
   let t : Topic := { name := tn, owner := a.uid, auth := auth, anon := anon, pub := pubTok,
                      perUser := [(a.uid, { want := want, given := modeCFull, priv := privTok })], isChan := o.chan, tags := o.tags }
   let c := c.putLive t
